@@ -134,6 +134,7 @@ def entrypoint(job: WorkerJob, id: int):
     except Exception as ex:
         print(f"[{id}] Process crashed: {ex}", file=sys.stderr)
         traceback.print_exc(file=sys.stderr)
+        sys.exit(1)
 
 
 @define
